@@ -18,11 +18,22 @@ def f32_bits(x):
     return struct.unpack("<I", struct.pack("<f", float(x)))[0]
 
 
-def run_bin(binpath, args, timeout=120, stdin=None):
+def _limit_fsize(nbytes):
+    """child set-up: files cannot grow beyond nbytes (a write crossing the limit is short, the next one fails with EFBIG); SIGXFSZ ignored"""
+    def f():
+        import resource
+        import signal
+        signal.signal(signal.SIGXFSZ, signal.SIG_IGN)
+        resource.setrlimit(resource.RLIMIT_FSIZE, (nbytes, nbytes))
+    return f
+
+
+def run_bin(binpath, args, timeout=120, stdin=None, fsize=None):
     t0 = time.time()
     try:
         p = subprocess.run([binpath] + [str(a) for a in args], stdout=subprocess.PIPE, stderr=subprocess.PIPE, timeout=timeout,
-                           env={"RUST_LOG": "info", "PATH": os.environ.get("PATH", "")}, input=stdin)
+                           env={"RUST_LOG": "info", "PATH": os.environ.get("PATH", "")}, input=stdin,
+                           preexec_fn=_limit_fsize(fsize) if fsize is not None else None)
         return {"rc": p.returncode, "stdout": p.stdout.decode("utf-8", "replace"), "stderr": p.stderr.decode("utf-8", "replace"),
                 "timeout": False, "wall": time.time() - t0}
     except subprocess.TimeoutExpired as ex:
